@@ -607,6 +607,23 @@ func TestC08_SidetreeClient(t *testing.T) {
 			origin = "https://anchor.example/services/orb"
 			opts = append(opts, create.WithAnchorOrigin(origin.(string)))
 		}
+		// the client refuses what would make an unacceptable request, and sends nothing
+		if rapid.IntRange(0, 3).Draw(t, "refusedCreate") == 0 {
+			bad := append([]create.Option{}, opts...)
+			why := rapid.SampledFrom([]string{"same key for update and recovery", "unsupported hash algorithm", "no recovery key"}).Draw(t, "refusal")
+			switch why {
+			case "same key for update and recovery":
+				bad[1] = create.WithUpdatePublicKey(rec.Public())
+			case "unsupported hash algorithm":
+				bad[2] = create.WithMultiHashAlgorithm(17)
+			default:
+				bad = bad[1:]
+			}
+			if _, err := c.CreateDID(bad...); err == nil || len(captured) != 0 {
+				t.Fatalf("C08 CreateDID with %s: err=%v, %d request(s) sent", why, err, len(captured))
+			}
+			st.Label("client-refusal")
+		}
 		if _, err := c.CreateDID(opts...); err != nil {
 			t.Fatalf("C08 CreateDID refused valid input: %v", err)
 		}
